@@ -55,3 +55,17 @@ Print Assumptions C04_vmax_is_max.
 Print Assumptions C04_vmin_is_min.
 Print Assumptions C04_identical_both_modes.
 Print Assumptions C04_laws_hold_for_Q.
+
+(** "true values equal => both listed" fails when the values are computed inexactly (known finding
+    K1-C04): Player 1 chooses between a final state (value 1) and a state whose finite-horizon values
+    1 - 0.9^m climb to 1; the reported strategy lists only the first. *)
+From CR Require Import Proofs.ReachQ Proofs.ReachQ2 Proofs.ReachQ3 Proofs.C04Q.
+Theorem C04_true_tie_refuted :
+  exists (g : game (T:=Q)) sl1 rs it,
+    solve_reach_fuel qops 1000 g false = Ok (sl1, rs, it) /\
+    nth 0 rs None = Some ["a"%string] /\
+    (forall m, gV g m 1 == 1)%Q /\
+    (forall m, gV g m 2 == 1 - qpow (9#10) m)%Q /\
+    (gV g 200 2 > 1 - (1 # 1000000000))%Q.
+Proof. destruct k4_tie_missed as (sl1 & rs & it & H). exists k4_game, sl1, rs, it. exact H. Qed.
+Print Assumptions C04_true_tie_refuted.
